@@ -164,6 +164,7 @@ def obligations(tier: str):
             add("operator", f"{rep}_{op}", fixture="f0", rep=rep, decider="grow", max_depth=2, gene_length=4 if T else 3, op=op, failures_limit=1, gene_fuel=8)
         add("operator", f"sge_{op}", fixture="fmin", rep="sge", decider="grow", max_depth=2, gene_length=2, op=op, timeout=200)
         add("operator", f"dsge_{op}", fixture="f0", rep="dsge", max_depth=3, op=op, timeout=200)
+        add("operator", f"dsge_{op}_f8", fixture="f8", rep="dsge", max_depth=2, op=op, timeout=200)
     for st in ("elitism", "novelty", "tournament", "lexicase", "mutation", "crossover", "parallel", "exclusive") + (("sequence",) if T else ()):
         add("step", f"step_{st}_ge", fixture="fmin", rep="ge", decider="grow", max_depth=2, gene_length=2, step=st, M=2, timeout=200, second=T or st in ("elitism", "novelty", "crossover"))
     for st in ("mutation", "crossover", "elitism") + (("sequence", "parallel") if T else ()):
